@@ -21,8 +21,10 @@ Definition read_ExtendedReport (l : list sval) : option XR := p_xr l.
 Definition ReceiverEstimatedMaximumBitrate := REMB.
 Definition zero_ReceiverEstimatedMaximumBitrate : REMB := mkREMB 0 0 [].
 Definition ReceiverEstimatedMaximumBitrate_Marshal (x : REMB) : res bytes := REMB_marshal x.
+(* the Go method sets p.SSRCs = nil before it appends: nothing of the receiver survives (Proofs/SourceRemb.v proves this
+   definition equal to the translated method for every receiver) *)
 Definition ReceiverEstimatedMaximumBitrate_Unmarshal (x0 : REMB) (b : bytes) : res REMB :=
-  res_map (fun x => mkREMB (remb_sender x) (remb_bitrate x) (remb_ssrcs x0 ++ remb_ssrcs x)) (REMB_unmarshal b).
+  res_map (fun x => mkREMB (remb_sender x) (remb_bitrate x) (remb_ssrcs x)) (REMB_unmarshal b).
 Definition ReceiverEstimatedMaximumBitrate_MarshalSize (x : REMB) : Z := Z.of_N (REMB_size x).
 Definition ReceiverEstimatedMaximumBitrate_DestinationSSRC (x : REMB) : list Z := map Z.of_N (REMB_dest x).
 Definition show_ReceiverEstimatedMaximumBitrate (x : REMB) : list sval := s_remb x.
